@@ -1,9 +1,11 @@
 package c02
 
 import (
+	"bytes"
 	"fmt"
 	"runtime"
 	"sort"
+	"strings"
 	"sync"
 	"sync/atomic"
 	"testing"
@@ -72,6 +74,7 @@ func TestC02(t *testing.T) {
 	for i := 0; i < n/4; i++ {
 		cases = append(cases, mon.CaseSpec{Name: "burst-idle", Spec: spec{Kind: "burst", Proto: []string{"push", "xpush", "pair", "xpair"}[i%4], Peers: 1 + rnd.Intn(3), Senders: 2 + rnd.Intn(3), Msgs: 200 + rnd.Intn(300), WQ: []int{2, 8, 128}[rnd.Intn(3)], Procs: procs[rnd.Intn(3)]}})
 		cases = append(cases, mon.CaseSpec{Name: "latejoin", Spec: spec{Kind: "latejoin", Proto: []string{"push", "xpush"}[i%2], Peers: 1 + rnd.Intn(3), WQ: []int{1, 2, 4, 128}[rnd.Intn(4)], Msgs: 3 + rnd.Intn(6)}})
+		cases = append(cases, mon.CaseSpec{Name: "inflight-loss", Spec: spec{Kind: "inflightloss", Proto: []string{"push", "xpush", "pair", "xpair", "pair1", "xpair1"}[i%6]}})
 		cases = append(cases, mon.CaseSpec{Name: "race-connect", Spec: spec{Kind: "race", Proto: []string{"pair", "pair1", "xpair", "xpair1"}[i%4], Msgs: 150 + rnd.Intn(150), Procs: procs[rnd.Intn(3)], Yield: rnd.Intn(2) == 0}})
 	}
 	r.Run(cases, func(c *mon.Case) {
@@ -99,6 +102,8 @@ func TestC02(t *testing.T) {
 			runBurst(c, sp)
 		case "race":
 			runRace(c, sp)
+		case "inflightloss":
+			runInflightLoss(c, sp)
 		}
 	})
 }
@@ -863,7 +868,7 @@ func runLateJoin(c *mon.Case, sp spec) {
 // count never exceeds one (a second AddPipe can only succeed after RemovePipe cleared the first).
 type countingProto struct {
 	mangos.ProtocolBase
-	c    *mon.Case
+	c       *mon.Case
 	n       atomic.Int64
 	max     atomic.Int64
 	adds    atomic.Int64
@@ -1020,4 +1025,120 @@ func runBurst(c *mon.Case, sp spec) {
 	c.Count("idle_bursts", sp.Msgs)
 	c.Nontrivial()
 	c.Sig("burst|%s|%d|%d|%d", sp.Proto, npeers, sp.Senders, sp.WQ)
+}
+
+// runInflightLoss: the connection goes away while a write on it is in progress.
+//
+// PUSH: the write is reported successful although the connection has been detached by then (its
+// bytes had left before the loss was noticed).  The dead connection must not come back as a
+// candidate: every message accepted afterwards goes to the connected, idle PULL peer.
+//
+// PAIR: the write fails with a plain I/O error.  The peer slot is free again: a new peer is
+// accepted and the conversation with it works in both directions.
+func runInflightLoss(c *mon.Case, sp spec) {
+	s := hx.MustSock(c, sp.Proto)
+	name := hx.Uniq("c02i")
+	L := vt.L(name)
+	c.Cleanup(func() { vt.Forget(name) })
+	if err := s.Listen(vt.Addr(name)); err != nil {
+		c.Inconclusive("setup: %v", err)
+		return
+	}
+	w := hx.WatchPipes(s)
+	nonce := hx.Uniq("n")
+	a := L.Connect()
+	if !hx.WaitAttached(c, w, 1, "first peer") {
+		return
+	}
+	a.HoldSends()
+	raw1 := sp.Proto == "xpair1"
+	send := func(q int) *mon.Call {
+		return mon.Go(fmt.Sprintf("Send#%d", q), func() (interface{}, error) {
+			if raw1 {
+				m := mangos.NewMessage(64)
+				m.Header = append(m.Header, 0, 0, 0, 0)
+				m.Body = append(m.Body, payload(nonce, 0, 0, q)...)
+				return nil, s.SendMsg(m)
+			}
+			return nil, s.Send(payload(nonce, 0, 0, q))
+		})
+	}
+	k0 := send(0)
+	if !c.AwaitOrViolate("harness:held", "the first message being written to the first peer", func() bool { _, sw := a.Waiters(); return sw >= 1 }, mon.AwaitOpts{}) {
+		return
+	}
+	push := strings.HasSuffix(sp.Proto, "push")
+	var b *vt.Pipe
+	if push {
+		b = L.Connect() // a second, idle PULL peer
+		if !hx.WaitAttached(c, w, 2, "second peer") {
+			return
+		}
+		a.DropLateSendOK()
+	} else {
+		a.Drop()
+	}
+	if !hx.WaitDetached(c, w, 1, "lost connection") {
+		c.Violate(sp.Proto+"/inflight-loss/not-detached", "the connection lost while a write on it was in progress was never detached")
+		return
+	}
+	if push {
+		a.ReleaseLate() // the write in progress now returns, successfully
+	}
+	if !c.AwaitOrViolate(sp.Proto+"/send-stuck:inflight-loss", "the Send whose connection was lost returning", k0.Done, mon.AwaitOpts{}) {
+		return
+	}
+	mon.Sleep(2 * time.Millisecond)
+	if !push {
+		b = L.Connect()
+		if !c.AwaitOrViolate(sp.Proto+"/new-peer-refused-after-inflight-loss", "a new peer being accepted after the first one vanished during a write", func() bool { return w.Attached() >= 2 }, mon.AwaitOpts{}) {
+			return
+		}
+		if cl, _, _ := b.Closed(); cl {
+			c.Violate(sp.Proto+"/new-peer-refused-after-inflight-loss", "the new peer's connection was closed by the socket although the first peer has gone")
+			return
+		}
+	}
+	// everything accepted from now on reaches the connected peer
+	n := 4 + c.Rand.Intn(5)
+	for q := 1; q <= n; q++ {
+		k := send(q)
+		if !c.AwaitOrViolate(sp.Proto+"/send-stuck:inflight-loss", fmt.Sprintf("Send %d with a connected idle peer", q), k.Done, mon.AwaitOpts{}) {
+			return
+		}
+		if _, err, _ := k.Result(); err != nil {
+			c.Violate(sp.Proto+"/send-error:inflight-loss", "Send with a connected idle peer returned %v", err)
+			return
+		}
+	}
+	if !c.AwaitOrViolate(sp.Proto+"/accepted-message-not-delivered:inflight-loss", fmt.Sprintf("all %d messages accepted after the loss reaching the connected idle peer (it has %d)", n, b.SentCount()), func() bool { return b.SentCount() >= n }, mon.AwaitOpts{}) {
+		return
+	}
+	for i, x := range b.SentLog() {
+		want := payload(nonce, 0, 0, i+1)
+		got := x.Body
+		if !bytes.Equal(got, want) {
+			c.Violate(sp.Proto+"/queue:inflight-loss", "the connected peer's transmission %d is %q, want %q", i, got, want)
+			return
+		}
+	}
+	if !push {
+		b.Inject(func() []byte {
+			if sp.Proto == "pair1" || raw1 {
+				return append([]byte{0, 0, 0, 1}, []byte("back")...)
+			}
+			return []byte("back")
+		}())
+		r := mon.Go("Recv", func() (interface{}, error) { v, e := s.Recv(); return v, e })
+		if !c.AwaitOrViolate(sp.Proto+"/recv-stuck:inflight-loss", "Recv from the new peer", r.Done, mon.AwaitOpts{}) {
+			return
+		}
+		if v, err, _ := r.Result(); err != nil || string(v.([]byte)) != "back" {
+			c.Violate(sp.Proto+"/queue:inflight-loss", "Recv from the new peer returned (%q, %v)", v, err)
+			return
+		}
+	}
+	c.Count("inflight_loss_messages_checked", n)
+	c.Nontrivial()
+	c.Sig("inflightloss|%s|%d", sp.Proto, n)
 }
